@@ -309,6 +309,62 @@ pub fn run(reg: &dyn Registry, ctx: &Ctx) -> Outcome {
             }
         }
 
+        // SplitMix64: counters for which an *intermediate* value of the finaliser (after each xor-shift and
+        // each multiply, of the 64-bit and of the 32-bit output function) is special: zero, small (< 2^32),
+        // just at / above 2^32 and 2^33, a single high bit, all ones, a zero half. Both output widths are
+        // compared with the reference for the call that meets the value and the two calls before it.
+        if kind == Kind::SplitMix64 {
+            use refmodels::seeding::{splitmix_counter_for_stage32, splitmix_counter_for_stage64};
+            let d = u64::from_le_bytes(alphabet::bg_bytes(ctx.seed, 0x5A17, 8).try_into().unwrap());
+            let mut vals: Vec<u64> = vec![0, 1, 2, 0xffff, 1 << 31, (1 << 32) - 1, 1 << 32, (1 << 32) + 1, (1 << 33) - 1, 1 << 33, (1 << 33) + 1, (1 << 34) - 1, 1 << 48, 1 << 63, u64::MAX, u64::MAX - 1, 0xffff_ffff_0000_0000, 0x0000_0001_0000_0000];
+            vals.extend([d & 0xffff_ffff, (d & 0xffff_ffff) | (1 << 32), (d & 0x1_ffff_ffff) | (1 << 32), d << 32, d >> 31, d >> 33, d | (1 << 63)]);
+            for j in [8u32, 16, 24, 40, 56] {
+                vals.push((1u64 << j) - 1);
+                vals.push(1u64 << j);
+            }
+            let mut counters: Vec<u64> = Vec::new();
+            for &v in &vals {
+                for st in 0..5 {
+                    counters.push(splitmix_counter_for_stage64(st, v));
+                }
+                for st in 0..4 {
+                    counters.push(splitmix_counter_for_stage32(st, v));
+                }
+            }
+            const PHI: u64 = refmodels::xoshiro::SPLITMIX_PHI;
+            let mut bad: Option<(String, serde_json::Value)> = None;
+            for &c in &counters {
+                for back in 0..3u64 {
+                    let x0 = c.wrapping_sub(back.wrapping_mul(PHI));
+                    for width32_at in 0..=back {
+                        // `back` calls of next_u64 (or next_u32 at one position), then both widths at the counter
+                        for last32 in [false, true] {
+                            let mut g = ty.from_seed(&x0.to_le_bytes());
+                            let mut x = x0;
+                            let mut ok = true;
+                            for i in 0..=back {
+                                let use32 = if i == back { last32 } else { i == width32_at && last32 };
+                                if use32 {
+                                    ok &= g.next_u32() == refmodels::xoshiro::splitmix64_next_u32(&mut x);
+                                } else {
+                                    ok &= g.next_u64() == refmodels::xoshiro::splitmix64_next(&mut x);
+                                }
+                            }
+                            ctx.add("steps_compared", back + 1);
+                            if !ok && bad.is_none() {
+                                bad = Some((format!("SplitMix64: from counter {:#x}, {} call(s) (the last through {}) do not return the reference values", x0, back + 1, if last32 { "next_u32" } else { "next_u64" }), json!({"kind":"lockstep","type":"SplitMix64","seed":hex(&x0.to_le_bytes()),"steps":back + 1})));
+                            }
+                        }
+                    }
+                }
+            }
+            ctx.add("splitmix_intermediate_directed_counters", counters.len() as u64);
+            ctx.add("seeds_lockstep", counters.len() as u64);
+            if let Some((w, r)) = bad {
+                ctx.violation("C01:SplitMix64:intermediate-value", &w, r);
+            }
+        }
+
         // multiplication-boundary operands of the * and ** scramblers: operands on which a product split
         // into partial products has a deciding carry, for the first multiplier directly and for the
         // second through the inverse of the first stage
